@@ -57,6 +57,7 @@ type Ret struct {
 	Order  string      `json:"order"`
 	Panic  string      `json:"panic"`
 	SanOK  bool        `json:"sanok"` // SanitizeMap/SanitizeList: same keys, same order, messages only
+	InOK   bool        `json:"inok"`  // C19: the input data is deeply equal to what it was before the call
 }
 
 type CallLine struct {
@@ -309,6 +310,11 @@ func runOnce(c *Case, order []int, opts ...z.ExecOption) (evs []Event, ret Ret) 
 	}
 	ret.Dest = []destEntry{}
 	flatten(destPtr.Elem(), c.Schema, []string{}, &ret.Dest)
+	// C19: Parse never modifies the maps, slices and structs it is given
+	ret.InOK = true
+	if c.Mode == "parse" && c.Fe == "map" {
+		ret.InOK = reflect.DeepEqual(data, concInput(c.Input, c.Schema, c.Fe))
+	}
 	// observed root-level visit order
 	depth0 := []string{}
 	if c.Schema.K == "struct" {
